@@ -65,7 +65,7 @@ theorem refsFrom_append (k : Nat) (a b : List CItem) :
   | nil => simp [refsFrom, nucCount]
   | cons c r ih =>
     cases c <;> simp [refsFrom, nucCount, ih]
-    congr 2; omega
+    rw [show k + 1 + nucCount r = k + (nucCount r + 1) by omega]
 
 theorem basesFrom_append (k : Nat) (a b : List CItem) :
     basesFrom k (a ++ b) = basesFrom k a ++ basesFrom (k + nucCount a) b := by
@@ -73,7 +73,7 @@ theorem basesFrom_append (k : Nat) (a b : List CItem) :
   | nil => simp [basesFrom, nucCount]
   | cons c r ih =>
     cases c <;> simp [basesFrom, nucCount, ih]
-    congr 2; omega
+    rw [show k + 1 + nucCount r = k + (nucCount r + 1) by omega]
 
 theorem anonsFrom_append (k : Nat) (a b : List CItem) :
     anonsFrom k (a ++ b) = anonsFrom k a ++ anonsFrom (k + nucCount a) b := by
@@ -81,7 +81,7 @@ theorem anonsFrom_append (k : Nat) (a b : List CItem) :
   | nil => simp [anonsFrom, nucCount]
   | cons c r ih =>
     cases c <;> simp [anonsFrom, nucCount, ih]
-    congr 2; omega
+    rw [show k + 1 + nucCount r = k + (nucCount r + 1) by omega]
 
 @[simp] theorem refsFrom_length (k : Nat) (cs : List CItem) : (refsFrom k cs).length = cs.length := by
   induction cs generalizing k with
@@ -231,11 +231,11 @@ theorem buildSuper_wild {pre post : List CItem} {w : List (Mult × Char)}
   · simp [hS, throw, throwThe, MonadExceptOf.throw]
   · simp only [hS, if_false]
     by_cases hw : L - (lenSum pre + lenSum post) < fixedSum w
-    · simp [resolve, h1, hw, throw, throwThe, MonadExceptOf.throw, pure, Except.pure]
+    · simp [resolve, h1, hw, throw, throwThe, MonadExceptOf.throw]
     · have hle : fixedSum w ≤ L - (lenSum pre + lenSum post) := by omega
       simp only [resolve_some_of_one h1 hle, hw, if_false, pure, Except.pure]
-      simp only [← refsFrom_length k pre, insertAt_append_length]
-      simp only [insertAt, mkAnon, SeqE.ref]
+      simp only [insertAt_append_length]
+      simp only [mkAnon, SeqE.ref]
       simp
       omega
 
@@ -244,5 +244,77 @@ theorem buildSuper_wild_none {pre post : List CItem} {w : List (Mult × Char)}
     buildSuper k (pre ++ .nuc w :: post) none = .error .wildNoLength := by
   simp only [buildSuper, buildFold_wild hpre h1 hpost { anon := k } rfl, bind, Except.bind]
   simp [throw, throwThe, MonadExceptOf.throw]
+
+/-! ### facts used by C10 -/
+
+theorem wildFree_iff (cs : List CItem) :
+    wildFree cs = true ↔ ∀ p, CItem.nuc p ∈ cs → ∃ r, resolve p none = .ok r := by
+  induction cs with
+  | nil => simp [wildFree]
+  | cons c r ih =>
+    cases c with
+    | obj i bs => simp [wildFree, ih]
+    | nuc q =>
+      simp only [wildFree, Bool.and_eq_true, beq_iff_eq, ih, List.mem_cons, CItem.nuc.injEq]
+      constructor
+      · rintro ⟨h0, hr⟩ p (rfl | hp)
+        · exact ⟨_, resolve_none_of_zero h0⟩
+        · exact hr p hp
+      · intro h
+        refine ⟨?_, fun p hp => h p (Or.inr hp)⟩
+        obtain ⟨x, hx⟩ := h q (Or.inl rfl)
+        exact (resolve_none_ok_iff.mp hx).1
+
+/-- orientation, length and kind of an item (everything except its name) -/
+def ItemRef.shape (i : ItemRef) : Bool × Nat × Bool := (i.rev, i.len, i.isSup)
+def BaseRef.shape (b : BaseRef) : Bool × Nat := (b.rev, b.len)
+
+theorem refsFrom_shape (k k' : Nat) (cs : List CItem) :
+    (refsFrom k cs).map ItemRef.shape = (refsFrom k' cs).map ItemRef.shape := by
+  induction cs generalizing k k' with
+  | nil => simp [refsFrom]
+  | cons c r ih =>
+    cases c with
+    | obj i bs => simp [refsFrom, ih k k']
+    | nuc p => simp [refsFrom, ih (k + 1) (k' + 1), ItemRef.shape]
+
+theorem basesFrom_shape (k k' : Nat) (cs : List CItem) :
+    (basesFrom k cs).map BaseRef.shape = (basesFrom k' cs).map BaseRef.shape := by
+  induction cs generalizing k k' with
+  | nil => simp [basesFrom]
+  | cons c r ih =>
+    cases c with
+    | obj i bs => simp [basesFrom, ih k k']
+    | nuc p => simp [basesFrom, ih (k + 1) (k' + 1), BaseRef.shape]
+
+theorem refsFrom_getElem?_obj (k : Nat) (cs : List CItem) (idx : Nat) (i : ItemRef) (bs : List BaseRef)
+    (h : cs[idx]? = some (.obj i bs)) : (refsFrom k cs)[idx]? = some i := by
+  induction cs generalizing k idx with
+  | nil => simp at h
+  | cons c r ih =>
+    cases idx with
+    | zero => simp at h; subst h; simp [refsFrom]
+    | succ n =>
+      simp at h
+      cases c <;> simp [refsFrom, ih _ n h]
+
+/-- names are kept for every item outside one position of a list `a ++ x :: b` -/
+theorem getElem?_obj_middle (k k' : Nat) (pre post : List CItem) (x : CItem) (y : ItemRef) (idx : Nat)
+    (i : ItemRef) (bs : List BaseRef) (h : (pre ++ x :: post)[idx]? = some (.obj i bs))
+    (hx : ∀ i bs, x ≠ .obj i bs) :
+    (refsFrom k pre ++ y :: refsFrom k' post)[idx]? = some i := by
+  by_cases hlt : idx < pre.length
+  · rw [List.getElem?_append_left hlt] at h
+    rw [List.getElem?_append_left (by simpa using hlt)]
+    exact refsFrom_getElem?_obj k pre idx i bs h
+  · have hge : pre.length ≤ idx := by omega
+    rw [List.getElem?_append_right hge] at h
+    rw [List.getElem?_append_right (by simpa using hge)]
+    simp only [refsFrom_length]
+    cases hd : idx - pre.length with
+    | zero => simp [hd] at h; exact absurd h (hx i bs)
+    | succ n =>
+      simp [hd] at h ⊢
+      exact refsFrom_getElem?_obj k' post n i bs h
 
 end Pepper.Comp
